@@ -126,3 +126,36 @@ Theorem C14_cap_depth_is_monotone_but_raises_its_children : forall cap, (1 < cap
   exists ds d, In d ds /\ N.max d (mk_cap cap tt ds) <> d.
 Proof. intros cap H. split. exact (capdepth_mono cap). exact (capdepth_not_below_kids cap H). Qed.
 Print Assumptions C14_cap_depth_is_monotone_but_raises_its_children.
+
+(* third session, second round (EGraph/AnalysisModel{Inv,Upper,Quiet,Ids,Str,Move,ReachA,Reach}.v): a CONCRETE invariant JJ
+   (stability with the pending exemption, data bounded, `upper` with virtual contributions, and a nine-field structural
+   record) is proved preserved by every pending-loop round (both entry kinds, both branches), by the miss branch of an
+   insertion and by a union, so that the datum of every live class is the fold of merge over make of its stored e-nodes in
+   every state reachable by node insertions and unions (reachN) - for min-size (below) and depth.  TWO structural premises
+   remain, both about the hash-cons and not about the analysis: `node_ok` at every insertion step of reachN (the miss branch
+   overwrites no hash-cons entry - a property of the plain e-graph model, cf. C08), and `key_at_hit` (at the hash-cons hit of
+   handle_pending the class united with is the class where the lookup found the node - the key invariant of
+   EGraph/KeyInv.v, proved there for Model.v, not yet transported to ModelA).  Both are evaluated by an instrumented run
+   on the validation histories (AnalysisModelKeyEval.v). *)
+From SE Require Import EGraph.AnalysisModelReachA EGraph.AnalysisModelReach.
+Theorem C14_min_size_is_fixpoint_in_reachable_states :
+  key_at_hit N N.eqb make_minsize N.min ->
+  forall s : egraph N, reachN N N.eqb make_minsize N.min (fun _ : N => None) s ->
+  forall c d : N, In c (ids N s) -> analysis_data N s c = Ok d ->
+  forall (sh0 : node) (rest : list node),
+  map fst (filter (fun e : node * N => N.eqb (snd e) c) (hashcons N s)) = sh0 :: rest ->
+  exists (v0 : N) (vs : list N),
+    make_in N make_minsize s sh0 = Ok v0 /\ mapr (make_in N make_minsize s) rest = Ok vs /\ d = fold_left N.min vs v0.
+Proof. exact minsize_data_is_fixpoint_reachable. Qed.
+Print Assumptions C14_min_size_is_fixpoint_in_reachable_states.
+
+Theorem C14_depth_is_fixpoint_in_reachable_states :
+  key_at_hit N N.eqb make_depth N.min ->
+  forall s : egraph N, reachN N N.eqb make_depth N.min (fun _ : N => None) s ->
+  forall c d : N, In c (ids N s) -> analysis_data N s c = Ok d ->
+  forall (sh0 : node) (rest : list node),
+  map fst (filter (fun e : node * N => N.eqb (snd e) c) (hashcons N s)) = sh0 :: rest ->
+  exists (v0 : N) (vs : list N),
+    make_in N make_depth s sh0 = Ok v0 /\ mapr (make_in N make_depth s) rest = Ok vs /\ d = fold_left N.min vs v0.
+Proof. exact depth_data_is_fixpoint_reachable. Qed.
+Print Assumptions C14_depth_is_fixpoint_in_reachable_states.
